@@ -470,7 +470,21 @@ func portfolioWith(solvers []solverSpec, query string, dir string, name string, 
 	go func() { wg.Wait(); close(ch) }()
 	var all []SolveResult
 	var first *SolveResult
-	for r := range ch {
+	var grace <-chan time.Time
+loop:
+	for {
+		var r SolveResult
+		var ok bool
+		select {
+		case r, ok = <-ch:
+			if !ok {
+				break loop
+			}
+		case <-grace:
+			// thorough tier: a second solver gets three times the first one's time (at least 5 s) to confirm or contradict
+			cancel()
+			break loop
+		}
 		all = append(all, r)
 		if r.Status == "unsat" || r.Status == "sat" {
 			if first == nil {
@@ -478,8 +492,10 @@ func portfolioWith(solvers []solverSpec, query string, dir string, name string, 
 				first = &rr
 				if !both {
 					cancel()
-					break
+					break loop
 				}
+				w := time.Duration(rr.Time*3*float64(time.Second)) + 5*time.Second
+				grace = time.After(w)
 			} else {
 				if r.Status != first.Status {
 					return SolveResult{Status: "error", Solver: first.Solver + "+" + r.Solver,
@@ -487,7 +503,7 @@ func portfolioWith(solvers []solverSpec, query string, dir string, name string, 
 				}
 				first.Solver = first.Solver + "+" + r.Solver
 				cancel()
-				break
+				break loop
 			}
 		}
 	}
